@@ -210,6 +210,43 @@ func c11(c *an.Check) {
 			return false
 		}},
 	}})
+	// the 96-byte form keeps the first 64 bytes (seed‖public key), not some other window
+	okCopy, nCopy := false, 0
+	if usk != nil {
+		for _, b := range usk.Blocks {
+			for _, ins := range b.Instrs {
+				if cc, ok := ins.(*ssa.Call); ok && an.BuiltinName(cc) == "copy" {
+					nCopy++
+					if src, ok := cc.Call.Args[1].(*ssa.Slice); ok && an.IsParam(src.X, 0) && (src.Low == nil || an.IsIntConst(src.Low, 0)) && an.IsIntConst(src.High, 64) {
+						okCopy = true
+					}
+				}
+			}
+		}
+	}
+	c.Require(okCopy && nCopy == 1, "PROVENANCE", "crypto.UnmarshalEd25519PrivateKey keeps data[:64] of the 96-byte form", usk, "", nCopy, "copy(newKey, data[:PrivateKeySize])", "the 64 key bytes kept from the 96-byte form are not the first 64 bytes (seed‖public key)")
+	// and the redundancy check compares data[32:64] with data[64:]
+	okCmp := false
+	if usk != nil {
+		for _, call := range an.Calls(usk, an.X("crypto/subtle", "", "ConstantTimeCompare")) {
+			a, oka := call.Call.Args[0].(*ssa.Slice)
+			b, okb := call.Call.Args[1].(*ssa.Slice)
+			if oka && okb && an.IsParam(a.X, 0) && an.IsParam(b.X, 0) {
+				lo := func(sl *ssa.Slice) int64 {
+					if sl.Low == nil {
+						return 0
+					}
+					if k, ok := sl.Low.(*ssa.Const); ok {
+						return k.Int64()
+					}
+					return -1
+				}
+				l1, l2 := lo(a), lo(b)
+				okCmp = (l1 == 32 && l2 == 64) || (l1 == 64 && l2 == 32)
+			}
+		}
+	}
+	c.Require(okCmp, "PROVENANCE", "crypto.UnmarshalEd25519PrivateKey compares the embedded public key with the redundant copy", usk, "", 1, "ConstantTimeCompare(data[32:64], data[64:])", "the redundancy check does not compare data[32:64] with data[64:]")
 	// WHO: the private key's byte slice is only ever set by constructors that guarantee 64 bytes
 	kf := p.FieldVar(an.FieldRef{Pkg: "crypto", Type: "Ed25519PrivateKey", Field: "k"})
 	c.Who(an.WhoSpec{Construct: "crypto.Ed25519PrivateKey.k is set only by the three length-safe constructors", Field: kf, Kinds: []an.AccessKind{an.Write},
